@@ -117,7 +117,7 @@ func (r *runner) process(cs *Case, toCoq bool, cf *lib.CasesFile) {
 	}
 	bad := directCheck(cs, o, r.res)
 	if toCoq || (bad && len(r.res.Violations) <= 20) {
-		cf.Add(o.gallina(cs), map[string]interface{}{"shape": cs.S, "value": cs.V})
+		cf.Add(o.gallina(cs), map[string]interface{}{"shape": cs.S, "value": cs.V, "history": cs.H})
 		for b, t := range o.Ffmt {
 			r.ffmt[b] = t
 		}
@@ -153,8 +153,15 @@ func main() {
 	}
 	var exh []*Case
 	for _, s := range exhaustiveShapes(cfg.Thorough()) {
-		for _, v := range boundaryValues(s, capPerShape) {
+		vs := boundaryValues(s, capPerShape)
+		for i, v := range vs {
 			cs := &Case{S: s, V: v, Family: "exhaustive"}
+			// the used destination: it held the fullest value of the shape (the last one: all keys / most elements), then
+			// (for every other case) the neighbouring boundary value
+			cs.H = []*Val{vs[len(vs)-1]}
+			if i%2 == 1 {
+				cs.H = append(cs.H, vs[(i+len(vs)-1)%len(vs)])
+			}
 			exh = append(exh, cs)
 		}
 	}
@@ -216,9 +223,18 @@ func replay(r *runner) {
 		}
 		fmt.Printf("pcore type : %s %s\nwrapped    : %s %s\naccepted   : %v\n", o.TypeErr, o.TypeText, o.WrapErr+o.WrapText, o.Wrapped, o.Inst)
 		fmt.Printf("back       : %s %s %s\ndeep equal : %v\n", o.BackErr, o.BackText, backText(cs.S, o.Back), o.Deep)
+		if o.Used {
+			fmt.Printf("used dest  : held %s\n             after ReflectTo: %s %s %s equal=%v\n", histText(cs), o.UsedErr, o.UsedText, backText(cs.S, o.UsedBack), o.UsedDeep)
+		}
 		if ob := o.Obj; ob != nil {
 			fmt.Printf("attributes : %v\ninit hash  : %s %s\nnew(hash)  : %s %s %s equal=%v\nnew(pos)   : %s %s %s equal=%v\n", ob.Attrs, ob.HashErr, ob.InitHash,
 				ob.NewHErr, ob.NewHText, backText(cs.S, ob.NewHBack), ob.NewHDeep, ob.NewPErr, ob.NewPText, backText(cs.S, ob.NewPBack), ob.NewPDeep)
+			if ob.TrimArgs != "" {
+				fmt.Printf("new(pos without trailing defaults %s): %s %s %s equal=%v\n", ob.TrimArgs, ob.NewTErr, ob.NewTText, backText(cs.S, ob.NewTBack), ob.NewTDeep)
+			}
+			if ob.NewHUsed {
+				fmt.Printf("new(hash) into a used destination: %s %s %s equal=%v\n", ob.NewHUsedErr, ob.NewHUsedText, backText(cs.S, ob.NewHUsedBack), ob.NewHUsedDeep)
+			}
 		}
 		n := len(r.res.Violations)
 		r.process(cs, true, cf)
